@@ -28,6 +28,7 @@ import (
 	"lunar/engine/routing"
 	sharedConfig "lunar/shared-model/config"
 
+	"github.com/negasus/haproxy-spoe-go/action"
 	"github.com/negasus/haproxy-spoe-go/message"
 	"github.com/negasus/haproxy-spoe-go/payload/kv"
 	"github.com/negasus/haproxy-spoe-go/request"
@@ -99,7 +100,7 @@ func (st *state) adopt(w *prodWorld) {
 
 func (st *state) load(eps []sharedConfig.EndpointConfig, o *proto.Out) string {
 	w := ensureProd()
-	cfg := &sharedConfig.PoliciesConfig{Global: st.glob, Endpoints: eps,
+	cfg := &sharedConfig.PoliciesConfig{Global: st.glob, Endpoints: eps, Accounts: st.accounts,
 		Exporters: sharedConfig.Exporters{File: &sharedConfig.FileExporterConfig{FileDir: w.dir, FileName: "out"}}}
 	if err := config.WritePoliciesConfig(os.Getenv("LUNAR_PROXY_POLICIES_CONFIG"), cfg); err != nil {
 		panic("c13 prod: cannot write policies.yaml: " + err.Error())
@@ -132,8 +133,8 @@ func (st *state) revert(kind string, o *proto.Out) string {
 	return "ok"
 }
 
-func (st *state) spoe(method, url string, o *proto.Out) string {
-	w := ensureProd()
+// send pushes one lunar-on-request SPOE message through the real handler and returns its actions
+func (w *prodWorld) send(method, url, headers string) action.Actions {
 	w.txn++
 	id := fmt.Sprintf("verif-spoe-%d", w.txn)
 	kvs := kv.NewKV()
@@ -144,9 +145,13 @@ func (st *state) spoe(method, url string, o *proto.Out) string {
 	kvs.Add("url", url)
 	kvs.Add("path", "/")
 	kvs.Add("query", "")
-	kvs.Add("headers", "early-response:true\n")
+	kvs.Add("headers", headers)
 	kvs.Add("body", []byte(""))
 	req := request.Request{Messages: &message.Messages{{Name: "lunar-on-request", KV: kvs}}}
 	w.handler(&req)
-	return st.readDispatch(req.Actions, o, "spoe")
+	return req.Actions
+}
+
+func (st *state) spoe(method, url string, o *proto.Out) string {
+	return st.readDispatch(ensureProd().send(method, url, "early-response:true\n"), o, "spoe")
 }
